@@ -267,6 +267,30 @@ func auxRaceWork(args []string) int {
 			}
 		}
 	}
+	// returned barcodes (and Scale wrappers of them) whose accessors are called by all
+	// goroutines at once; nothing but the constructor has touched them before the barrier
+	type sharedAcc struct {
+		bc   barcode.Barcode
+		want string
+		fam  string
+	}
+	var accs []sharedAcc
+	if !strings.HasPrefix(d.Focus, "aztec") {
+		excluded["aztec-ok"] = false
+		for _, q := range []Req{{Fam: "aztec", S: []byte("shared aztec payload 12345"), I: []int64{33, 0}, Scheme: -1}, {Fam: "aztec", S: []byte("second, shared. payload"), I: []int64{23, 3}, Scheme: 9}} {
+			if bc, err := q.do(); err == nil && bc != nil {
+				accs = append(accs, sharedAcc{bc, string(q.S), "aztec"})
+				if sc, err := barcode.Scale(bc, 2*bc.Bounds().Dx(), 2*bc.Bounds().Dy()+1); err == nil {
+					accs = append(accs, sharedAcc{sc, string(q.S), "aztec(scaled)"})
+				}
+			}
+		}
+	}
+	for _, s := range []barcode.Barcode{src1D, srcEAN, srcPDF} {
+		if s != nil {
+			accs = append(accs, sharedAcc{s, "", s.Metadata().CodeKind})
+		}
+	}
 	var shared []rsShared
 	for _, fs := range c17Fields {
 		gf := utils.NewGaloisField(fs.pp, fs.size, fs.base)
@@ -342,6 +366,24 @@ func auxRaceWork(args []string) int {
 						if msg, _ := scaleModel(s, sc, nil, w, 3, fill); msg != "" {
 							probs[g] = append(probs[g], "Scale under concurrency: "+msg)
 						}
+					}
+				}
+				if i%3 == 0 {
+					for _, a := range accs {
+						ct := a.bc.Content()
+						if a.want != "" && ct != a.want {
+							probs[g] = append(probs[g], fmt.Sprintf("shared barcode accessor: Content() of a shared %s barcode read concurrently = %q, want %q", a.fam, ct, a.want))
+						}
+						_ = a.bc.Metadata()
+						_ = a.bc.Bounds()
+						_ = a.bc.ColorModel()
+						if cs, ok := a.bc.(barcode.BarcodeIntCS); ok {
+							_ = cs.CheckSum()
+						}
+						if cc, ok := a.bc.(barcode.BarcodeColor); ok {
+							_ = cc.ColorScheme()
+						}
+						_ = a.bc.At(gr.Intn(a.bc.Bounds().Dx()), 0)
 					}
 				}
 				if i%3 == 1 && scaled2D != nil {
